@@ -7,6 +7,7 @@ import PetgraphModel.Proofs.C01W2Main
 import PetgraphModel.Proofs.C01W4Walker
 import PetgraphModel.Proofs.C01W4Convert
 import PetgraphModel.Spec.C01RunChecks
+import PetgraphModel.Proofs.C01W6Laws
 /-
 C01 — `Graph` behaves as a compact-indexed multigraph under every operation history.
 
@@ -679,5 +680,62 @@ example : SGProofs.Inv demoSG ∧ demoSG.nodeCount < SG.nodeBound demoSG ∧
   obtain ⟨s', outs, hrun, hinv⟩ := C01Conv.sg_run_inv demoSGops _ (SGProofs.inv_empty true 255 false true)
   have : demoSG = s' := by simp only [demoSG, hrun]; rfl
   rw [this]; exact hinv
+
+/-! ### wave 6 — corners of the API: `clone_from`, `into_nodes_edges`, the harness-side laws -/
+
+/-- **`a.clone_from(&b)` is `a = b.clone()` for EVERY prior graph `a`** — `Vec::clone_from` (truncate, element-wise
+`clone_from` on the common prefix, extend with clones of the rest; `C01W6.vecCloneFrom`) with `Node`/`Edge`
+clones that copy every field (`clone_fields!`) gives the source state, whatever the destination held; and the
+source state is what the model's `clone` op yields, so every `clone k` line of the harness (clone; `clone_from`
+onto an arbitrary smaller/larger prior graph; onto a mutated clone of itself; clone-then-mutate either copy) is
+judged against the right state.  No hypothesis. -/
+theorem C01_clone_from_is_clone (dst src : State) :
+    C01W6.cloneFrom dst src = src ∧ (G.step src .clone).1 = src :=
+  C01W6.clone_from_is_clone dst src
+
+/-- the full-strength variant "`clone_from` = `clone` for every element `clone_from` that copies the weight and
+the links" is FALSE: the round-5 seeded `Edge::clone_from` (forgets `node`) differs from `clone` as soon as the
+destination holds an edge with other endpoints … -/
+theorem C01_clone_from_every_field_false_witness :
+    ∃ dst src : List Edge, C01W6.vecCloneFrom C01W6.edgeCloneFromSeeded dst src ≠ src :=
+  C01W6.clone_from_needs_every_field
+
+/-- … and it is invisible onto an edge-free destination, for ANY element `clone_from` (the element function is
+never called): a `clone_from` test must start from a destination with edges of its own -/
+theorem C01_clone_from_onto_empty (cf : Edge → Edge → Edge) (src : List Edge) : C01W6.vecCloneFrom cf [] src = src :=
+  C01W6.clone_from_onto_empty_hides cf src
+
+/-- **`into_nodes_edges` followed by re-insertion in index order is `rebuild`** (the conversion through
+`StableGraph`, `filter_map` keeping everything): in every state satisfying the invariant both loops succeed —
+no capacity panic, no absent endpoint — and produce exactly `rebuild s`.  The driver judges `rebuild 1`
+(`into_nodes_edges`) with the op it uses for `rebuild 0`. -/
+theorem C01_into_nodes_edges_is_rebuild (s : State) (h : Inv s) :
+    ∃ g, C01W6.reAdd s = some g ∧ rebuild s = .ok g :=
+  C01W6.into_nodes_edges_readd_inv s h
+
+/-- … for every reachable state (any history, width, edge type) -/
+theorem C01_into_nodes_edges_all_histories (endv : Nat) (directed : Bool) (ops : List Op) :
+    ∃ g, C01W6.reAdd (run (G.empty endv directed) ops).1 = some g ∧ rebuild (run (G.empty endv directed) ops).1 = .ok g :=
+  C01_into_nodes_edges_is_rebuild _ (C01_inv_all_histories endv directed ops)
+
+/-- non-vacuity: after a history with removals (links no longer in index order) the re-insertion gives the
+`rebuild` state, and that state differs from the original (the adjacency order is reset to index order) -/
+example : ∃ g, C01W6.reAdd (run (G.empty 255 true) demoOps2).1 = some g ∧ rebuild (run (G.empty 255 true) demoOps2).1 = .ok g :=
+  C01_into_nodes_edges_all_histories 255 true demoOps2
+/-- non-vacuity of `C01_clone_from_is_clone`: a destination with more edges than the source, other endpoints -/
+example : C01W6.cloneFrom (run (G.empty 255 true) demoOps2).1 (run (G.empty 255 false) [.addNode 1, .addNode 2, .addEdge 1 0 3]).1
+    = (run (G.empty 255 false) [.addNode 1, .addNode 2, .addEdge 1 0 3]).1 :=
+  (C01_clone_from_is_clone _ _).1
+
+/-- run-time check: a `law …` line the driver answers `ok` is a line on which the harness-side law held
+(`C01Checks.lawVerdict`); everything else — `VIOLATED <why>`, a panic inside the law — is a SPECFAIL -/
+theorem C01_law_check (name impl : String) (h : C01Checks.lawVerdict name impl = none) : impl = "ok" :=
+  C01W6.lawVerdict_ok name impl h
+
+/-- run-time check: the optional item-form word of `extend_with_edges` / `from_edges` is absent or one of the
+six `IntoWeightedEdge` forms; any other request is rejected as a bad request -/
+theorem C01_form_check (form : List String) (h : C01Checks.formOkB form = true) :
+    form = [] ∨ ∃ f, form = [f] ∧ f ∈ ["f0", "f1", "f2", "f3", "f4", "f5"] :=
+  C01W6.formOk_cases form h
 
 end PetgraphModel.C01T
